@@ -8,7 +8,7 @@ import os
 import sys
 import traceback
 
-from .core import HarnessError
+from .core import HarnessError, LibraryRaised, raised_in_library
 
 REGISTRY = {
     "C01": "kverif.props.codec:run_c01",
@@ -46,17 +46,46 @@ def main(argv=None):
     modname, fn = REGISTRY[prop].split(":")
     try:
         mod = importlib.import_module(modname)
+        if args.replay and "uncaught_library_exception" in open(args.replay).read(2000000):
+            args.replay = None  # such a record is replayed by running the check again
         if args.replay:
             rmod = importlib.import_module("kverif.props.faults") if prop == "C10" else mod
             return getattr(rmod, "replay")(prop, args.replay)
         return getattr(mod, fn)(args.tier)
+    except LibraryRaised as e:
+        return library_raised(prop, args.tier, e.exc_name, e.text)
     except HarnessError as e:
         print(f"HARNESS-ERROR property={prop} {e}")
         return 2
-    except Exception:  # noqa: BLE001
+    except Exception as e:  # noqa: BLE001
+        if raised_in_library(e.__traceback__) and not args.replay:
+            return library_raised(prop, args.tier, type(e).__name__, traceback.format_exc())
         print(f"HARNESS-ERROR property={prop} unexpected exception in the checker")
         traceback.print_exc()
         return 2
+
+
+def library_raised(prop, tier, exc_name, text):
+    """An unexpected exception escaped from the library where the harness calls it with in-domain arguments and
+    guards nothing: reported as a violation of the property under check (see core.LibraryRaised)."""
+    import json
+
+    from .core import ROOT, Run, violation
+
+    try:
+        level = next(p["level_claimed"]["category"] for p in json.load(open(os.path.join(ROOT, "MANIFEST.json")))["checks"] if p["property_id"] == prop)
+    except Exception:  # noqa: BLE001
+        level = "exploration"
+    run = Run(prop, tier, level)
+    lines = [l for l in text.strip().splitlines() if l.strip()]
+    where = next((l.strip() for l in reversed(lines) if l.strip().startswith("File ")), "?")
+    run.report(violation(prop, "uncaught", f"{prop}/library-raised-where-every-call-succeeds-on-a-correct-tree/{exc_name}", "-",
+                         {"uncaught_library_exception": exc_name, "where": where, "traceback": text[-3000:]},
+                         "the call returns (the harness passes in-domain arguments here)", lines[-1][:300] if lines else exc_name, (0,)))
+    run.cov["rule"] = "the exploration stopped at an exception escaping from the library under test; nothing else was judged in this run"
+    run.notes["aborted"] = True
+    run.cov["evaluations"] = run.cov["distinct_nontrivial"] = 1  # the call that raised
+    return run.finish()
 
 
 if __name__ == "__main__":
